@@ -2,7 +2,7 @@
     (harness/cmd/c08) writes [coq/gen/Cases_C08_*.v] with values of [case]
     holding the inputs it gave to the implementation AND what the
     implementation returned; [check] re-runs the model. *)
-From CSS Require Import Lib.Base Lib.Cases Model.Comb Model.CombHeap.
+From CSS Require Import Lib.Base Lib.Cases Model.Comb Model.CombHeap Model.CombConc.
 
 Inductive case : Type :=
 (* full walk from the first combination: m, k, (digest, visited, exhausted) and amount *)
@@ -18,8 +18,15 @@ Inductive case : Type :=
 | CFlipBytes (s : list Z) (v : list Z) (r : obs (list Z))
 (* a sequence of calls on several iterators (Model/CombHeap.v), all starting from nothing:
    what every call returned, and - read AFTER the last call - every combination that was handed
-   out on the way and the current combination of every iterator *)
-| CProg (ops : list op) (r : obs (list ev * list (list Z) * list (list Z))).
+   out on the way and the current combination of every iterator;
+   [hints]: the position of the iterator read right after each SetCombinationID, in order
+   (evaluation hints only: [run_h ops hints = run ops] for every [hints], Proofs/CombConc.v) *)
+| CProg (ops : list op) (hints : list (list Z)) (r : obs (list ev * list (list Z) * list (list Z)))
+(* several goroutines at the same time, each with an iterator of its own (k, m) on which it
+   makes the calls [ops]; per goroutine: hints as above, and what it observed - the final
+   position, what every call returned, and the combinations it was handed (read after all
+   goroutines have finished) *)
+| CConc (ths : list (nat * Z * list lop * list (list Z) * obs (list Z * list ev * list (list Z)))).
 
 Definition ev_eqb (a b : ev) : bool :=
   match a, b with
@@ -31,6 +38,21 @@ Definition ev_eqb (a b : ev) : bool :=
 
 Definition prog_obs (ops : list op) : outcome (list ev * list (list Z) * list (list Z)) :=
   bind (run ops hinit) (fun '(st, evs) => Ok (evs, results st, currents st)).
+
+Definition prog_obs_h (ops : list op) (hints : list (list Z)) : outcome (list ev * list (list Z) * list (list Z)) :=
+  bind (run_h ops hints hinit) (fun '(st, evs) => Ok (evs, results st, currents st)).
+
+Definition obs_hint (r : obs (list Z)) : list Z := match r with OOk s => s | _ => [] end.
+
+Definition lobs_eqb (a b : list Z * list ev * list (list Z)) : bool :=
+  let '(s1, e1, g1) := a in
+  let '(s2, e2, g2) := b in
+  zlist_eqb s1 s2 && list_eqb ev_eqb e1 e2 && list_eqb zlist_eqb g1 g2.
+
+(** every goroutine observed what its own calls yield on an iterator nobody else touches *)
+Definition thread_ok (t : nat * Z * list lop * list (list Z) * obs (list Z * list ev * list (list Z))) : bool :=
+  let '(k, m, ops, hints, r) := t in
+  obs_match lobs_eqb r (lrun_h m ops hints (first_comb k)).
 
 Definition prog_eqb (a b : list ev * list (list Z) * list (list Z)) : bool :=
   let '(e1, r1, c1) := a in
@@ -48,11 +70,12 @@ Definition check (c : case) : bool :=
   | CNext m s more s' =>
       let '(b, r) := next m s in Bool.eqb b more && zlist_eqb r s'
   | CRank m s id => rank64 m s =? id
-  | CSeek m k id r => obs_match zlist_eqb r (seek m k id)
+  | CSeek m k id r => obs_match zlist_eqb r (seek_h m k id (obs_hint r))
   | CAmount m k am => amount64 m k =? am
   | CFlipBools s v r => obs_match (list_eqb Bool.eqb) r (flip_bools s v)
   | CFlipBytes s v r => obs_match zlist_eqb r (flip_bytes s v)
-  | CProg ops r => obs_match prog_eqb r (prog_obs ops)
+  | CProg ops hints r => obs_match prog_eqb r (prog_obs_h ops hints)
+  | CConc ths => forallb thread_ok ths
   end.
 
 Definition mismatches := mismatches_by check.
